@@ -44,6 +44,10 @@ var c13Labels = []c13Label{
 	{name: "int-maxint64", key: int64(math.MaxInt64), cose: true},
 	{name: "int-4(kid)", key: int64(4), cose: true, val: []byte("kid-1")},
 	{name: "text-digits-4", key: "4", cose: true, jws: true},
+	// text labels that spell the integer labels the specification defines (1 alg, 2 crit, 3 content type): a text string is never an integer label
+	{name: "text-digits-3", key: "3", cose: true, jws: true},
+	{name: "text-digits-1", key: "1", cose: true, jws: true},
+	{name: "text-digits-2", key: "2", cose: true, jws: true},
 }
 
 type c13Value struct {
